@@ -290,7 +290,8 @@ fn run(ctx: &mut Ctx) {
     // random long / deep / unbalanced
     let n = ctx.scaled(t.pick(40_000, 800_000)) / ctx.nshards as u64;
     for _ in 0..n {
-        let len = 1 + r.below(if r.chance(1, 10) { 400 } else { 40 });
+        let lim = if r.chance(1, 10) { 400 } else { 40 };
+        let len = 1 + r.below(lim);
         let deep = r.chance(1, 3);
         let mut kinds = Vec::with_capacity(len);
         for _ in 0..len {
